@@ -70,11 +70,11 @@ RoundHE(a, b) == LET q == a \div b  r == a % b
 
 \* centroiders.py:126-143 : zero-padded circular cross-correlation, |.|, fftshift
 At(img, h, w, p) == IF p[1] < h /\ p[2] < w THEN img[p] ELSE 0            \* zero padding to P x P
-CrossCorr(im, ref, n, pad) ==
-    LET P == n * pad
-        sup == { q \in Pix(n, n) : ref[q] # 0 }
-        c(k) == MapThenSumSet(LAMBDA q : At(im, n, n, <<(q[1] + k[1]) % P, (q[2] + k[2]) % P>>) * ref[q], sup)
-    IN  [p \in Pix(P, P) |-> c(<<(p[1] - (P \div 2)) % P, (p[2] - (P \div 2)) % P>>)]
+CrossCorr(im, ref, ny, nx, pad) ==       \* frames of ny rows and nx columns, padded to Py x Px
+    LET Py == ny * pad   Px == nx * pad
+        sup == { q \in Pix(ny, nx) : ref[q] # 0 }
+        c(k) == MapThenSumSet(LAMBDA q : At(im, ny, nx, <<(q[1] + k[1]) % Py, (q[2] + k[2]) % Px>>) * ref[q], sup)
+    IN  [p \in Pix(Py, Px) |-> c(<<(p[1] - (Py \div 2)) % Py, (p[2] - (Px \div 2)) % Px>>)]
 
 MinRemoved(img) == LET m == MinOf(img) IN [p \in DOMAIN img |-> img[p] - m]
 
@@ -99,8 +99,9 @@ Init ==
     /\ \/ \E th \in Thetas : mode = "cog" /\ cfg = [h |-> 3, w |-> 3, th |-> th]
        \/ \E th \in Thetas, oy \in 0..2, ox \in 0..3 : mode = "cogwin" /\ cfg = [h |-> 4, w |-> 5, th |-> th, oy |-> oy, ox |-> ox]
        \/ \E k \in BpKs : mode = "bp" /\ cfg = [h |-> 3, w |-> 3, k |-> k]
-       \/ \E n \in CorrSizes, pad \in 1..MaxPad, bg \in 0..1, th \in {<<0,1>>, <<1,2>>} :
-              mode = "corr" /\ cfg = [n |-> n, pad |-> pad, bg |-> bg, th |-> th]
+       \/ \E n \in CorrSizes, pad \in 1..MaxPad, bg \in 0..1, th \in {<<0,1>>, <<1,2>>}, rect \in {0, 1} :
+              \* square frames, and rectangular ones with one more column than rows (rect = 1)
+              mode = "corr" /\ cfg = [ny |-> n, nx |-> n + rect, pad |-> pad, bg |-> bg, th |-> th]
        \/ mode = "quad" /\ cfg = [h |-> 2, w |-> 2]
 
 ChooseImage ==
@@ -110,13 +111,13 @@ ChooseImage ==
          [] mode = "cogwin" ->
               \E c \in [Pix(2, 2) -> 0..MaxVal] : cfg' = cfg @@ [img |-> Window(4, 5, c, cfg.oy, cfg.ox)]
          [] mode = "corr" ->
-              \E c \in [Pix(2, 2) -> 0..1], d \in 0..(cfg.n-2) :
-                  \E s \in (-(cfg.n)..cfg.n) \X (-(cfg.n)..cfg.n) :
-                     LET ref0 == Window(cfg.n, cfg.n, c, d, (d * 2) % (cfg.n - 1))
+              \E c \in [Pix(2, 2) -> 0..1], d \in 0..(cfg.ny-2) :
+                  \E s \in (-(cfg.ny)..cfg.ny) \X (-(cfg.nx)..cfg.nx) :
+                     LET ref0 == Window(cfg.ny, cfg.nx, c, d, (d * 2) % (cfg.nx - 1))
                      IN  /\ Support(ref0) # {}
-                         /\ s \in InsideShifts(ref0, cfg.n, cfg.n)
-                         /\ cfg' = cfg @@ [ref |-> [p \in Pix(cfg.n, cfg.n) |-> ref0[p] + cfg.bg],
-                                           img |-> [p \in Pix(cfg.n, cfg.n) |-> Translate(ref0, cfg.n, cfg.n, s[1], s[2])[p] + cfg.bg],
+                         /\ s \in InsideShifts(ref0, cfg.ny, cfg.nx)
+                         /\ cfg' = cfg @@ [ref |-> [p \in Pix(cfg.ny, cfg.nx) |-> ref0[p] + cfg.bg],
+                                           img |-> [p \in Pix(cfg.ny, cfg.nx) |-> Translate(ref0, cfg.ny, cfg.nx, s[1], s[2])[p] + cfg.bg],
                                            s |-> s]
          [] mode = "quad" ->
               \E img \in [Pix(2, 2) -> 0..3] : cfg' = cfg @@ [img |-> img]
@@ -127,7 +128,7 @@ Stage1 ==
     /\ pc = "stage1"
     /\ work' = CASE mode \in {"cog", "cogwin"} -> ThreshSub(cfg.img, cfg.th)
                  [] mode = "bp" -> RankClip(cfg.img, cfg.k)
-                 [] mode = "corr" -> CrossCorr(MinRemoved(cfg.img), MinRemoved(cfg.ref), cfg.n, cfg.pad)
+                 [] mode = "corr" -> CrossCorr(MinRemoved(cfg.img), MinRemoved(cfg.ref), cfg.ny, cfg.nx, cfg.pad)
                  [] mode = "quad" -> cfg.img
     /\ pc' = "stage2" /\ UNCHANGED <<mode, cfg, res>>
 
@@ -139,11 +140,11 @@ Stage2 ==
 
 \* centroiders.py:44-50 : the centroid of the P x P correlation is brought back to the n x n frame by subtracting
 \* (P div 2) - (n div 2)   [the fftshift centre of the padded frame minus that of the frame]
-CorrOffset == ((cfg.n * cfg.pad) \div 2) - (cfg.n \div 2)
+CorrOffset(n) == ((n * cfg.pad) \div 2) - (n \div 2)
 MomentsStep ==
     /\ pc = "moments"
     /\ res' = IF mode = "quad" THEN Quad(work)
-              ELSE IF mode = "corr" THEN LET m == Moments(work) IN << m[1] - CorrOffset * m[3], m[2] - CorrOffset * m[3], m[3] >>
+              ELSE IF mode = "corr" THEN LET m == Moments(work) IN << m[1] - CorrOffset(cfg.nx) * m[3], m[2] - CorrOffset(cfg.ny) * m[3], m[3] >>
               ELSE Moments(work)
     /\ pc' = "done" /\ UNCHANGED <<mode, cfg, work>>
 
@@ -154,8 +155,8 @@ Spec == Init /\ [][Next]_vars
 (* ---------- properties (Def) ---------- *)
 Done == pc = "done"
 IsCog == mode \in {"cog", "cogwin"}
-H == IF mode = "corr" THEN cfg.n ELSE cfg.h
-W == IF mode = "corr" THEN cfg.n ELSE cfg.w
+H == IF mode = "corr" THEN cfg.ny ELSE cfg.h
+W == IF mode = "corr" THEN cfg.nx ELSE cfg.w
 Op(img) == IF IsCog THEN CoG(img, cfg.th) ELSE Brightest(img, cfg.k)
 
 \* centre of gravity without threshold is the first moment over the total (the meaning of the name)
@@ -177,18 +178,19 @@ ShiftEquivariant == (Done /\ (IsCog \/ mode = "bp")) =>
 \* definition the frame-wise result -- the binding checks the real N-D path against it.
 StackEqualsFrames == (Done /\ (IsCog \/ mode = "bp")) => SameCentroid(Op(cfg.img), res)
 
-\* an image displaced by s from its reference gives centre + s, centre = n div 2, for every padding
+\* an image displaced by s from its reference gives centre + s, centre = (nx div 2, ny div 2), for every padding
 NearTie == mode = "corr" /\ cfg.th[1] # 0 /\
-           LET c == CrossCorr(MinRemoved(cfg.img), MinRemoved(cfg.ref), cfg.n, cfg.pad)
+           LET c == CrossCorr(MinRemoved(cfg.img), MinRemoved(cfg.ref), cfg.ny, cfg.nx, cfg.pad)
                m == MaxOf(c)
            IN  \E p \in DOMAIN c : cfg.th[2]*c[p] = cfg.th[1]*m
 \* the displaced auto-correlation must not wrap around the (padded) correlation frame
-CorrFits == LET P == cfg.n * cfg.pad
+CorrFits == LET Py == cfg.ny * cfg.pad   Px == cfg.nx * cfg.pad
                 sup == Support(MinRemoved(cfg.ref))
-                ext == { q[1] - r[1] : q \in sup, r \in sup } \cup { q[2] - r[2] : q \in sup, r \in sup }
-            IN  \A e \in ext : /\ (P \div 2) + cfg.s[1] + e \in 0..(P-1)
-                               /\ (P \div 2) + cfg.s[2] + e \in 0..(P-1)
-CorrExpected == << (cfg.n \div 2) + cfg.s[2], (cfg.n \div 2) + cfg.s[1] >>       \* <<x, y>>
+                exty == { q[1] - r[1] : q \in sup, r \in sup }
+                extx == { q[2] - r[2] : q \in sup, r \in sup }
+            IN  /\ \A e \in exty : (Py \div 2) + cfg.s[1] + e \in 0..(Py-1)
+                /\ \A e \in extx : (Px \div 2) + cfg.s[2] + e \in 0..(Px-1)
+CorrExpected == << (cfg.nx \div 2) + cfg.s[2], (cfg.ny \div 2) + cfg.s[1] >>       \* <<x, y>>
 CorrelationDisplacement == (Done /\ mode = "corr" /\ CorrFits) =>
     /\ res[3] # 0
     /\ res[1] = CorrExpected[1] * res[3]
@@ -212,8 +214,8 @@ EmitCase == (Emit /\ Done) =>
                           impl |-> res, lit |-> SetToSeq(Support(cfg.img)),
                           shifts |-> SetToSeq(InsideShifts(cfg.img, 3, 3))]))
       [] mode = "corr" ->
-           PrintT(ToJson([kind |-> "corr", n |-> cfg.n, pad |-> cfg.pad, th |-> cfg.th, s |-> cfg.s,
-                          img |-> Rows(cfg.n, cfg.n, cfg.img), ref |-> Rows(cfg.n, cfg.n, cfg.ref),
+           PrintT(ToJson([kind |-> "corr", n |-> cfg.ny, nx |-> cfg.nx, pad |-> cfg.pad, th |-> cfg.th, s |-> cfg.s,
+                          img |-> Rows(cfg.ny, cfg.nx, cfg.img), ref |-> Rows(cfg.ny, cfg.nx, cfg.ref),
                           impl |-> res, fits |-> CorrFits, neartie |-> NearTie,
                           expected |-> CorrExpected]))
       [] mode = "quad" ->
